@@ -219,18 +219,29 @@ CHECKS = {
                      "sequentially consistent interleavings at synchronisation operations; unlock is not a preemption point"],
     ),
     "C19": dict(
-        harness="root", run="TestVerifC19", level="model_checking", crash_is_violation=True,
+        level="model_checking", crash_is_violation=True,
+        parts=[
+            dict(name="catalogue", harness="root", run="TestVerifC19"),
+            dict(name="invitations", harness="root", run="TestVerifC19b"),
+        ],
         technique="explicit-state search over service states (activation histories, canonical = set of active groups) x exhaustive request catalogue for every method of the protocol service invoked in-process on a real service, plus the decode/decrypt helpers on all byte strings of length <= 2 and every truncation of valid inputs",
         rule="methods are read by reflection from ProtocolServiceServer; per request field: bytes in {nil, empty, 1B, 31B, 32B non-key, 32B unknown key, 33B, 64KiB, known value(s)}, sub-messages in {nil, empty, valid with each bytes field removed, valid}, enums {999,0,1}, bools, strings, ints; all combinations over at most 3 varying fields; states = distinct service states, transitions = requests issued; classes = (state, method, error)",
-        assumptions=["methods are invoked on the service object (not through the gRPC transport) so that a panic is caught per request; a panic in a background goroutine kills the harness process and is reported as a process crash",
+        assumptions=["part 'invitations': 23 invitations whose unauthenticated fields (signing key, link key, its signature) have odd lengths are joined, then 16 requests work on each joined group (activate, send, list, invite, export, deactivate, leave ...)",
+                     "listing requests also carry identifiers of real log entries (oldest/newest of the open groups), in both orders",
+                     "methods are invoked on the service object (not through the gRPC transport) so that a panic is caught per request; a panic in a background goroutine kills the harness process and is reported as a process crash",
                      "streaming methods and methods that dial out get a 250 ms context; requests that would need an external server are exercised up to the dial",
                      "service states to depth 2 (quick) / 3 over {deactivate/activate account group, create/deactivate a multi-member group, add a contact / deactivate its group}"],
     ),
     "C20": dict(
-        harness="root", run="TestVerifC20", level="model_checking",
+        level="model_checking",
+        parts=[
+            dict(name="histories", harness="root", run="TestVerifC20"),
+            dict(name="export-faults", harness="root", run="TestVerifC20Faults"),
+        ],
         technique="explicit-state exploration of real services: every operation history up to a depth, export at every state, restore into a fresh datastore + fresh mock node and comparison of identity, logs, heads and derived state; plus an exhaustive mutation catalogue on representative archives",
         rule="states = histories over {contact request, block, join+activate a group, message in account group, message / metadata in the group, deactivate the group}; transitions = export+restore runs; valid archives are compared member by member with the DAG and with the restored node; mutations: each member dropped / duplicated, byte flips (every byte of the key files; first/middle/last byte of entries and heads in quick, every byte in thorough), adjacent swaps and full reversal, entry renamed / contents swapped, key files swapped, restore onto a store with an account; classes = (mutation kind, outcome)",
-        assumptions=["only the rejection cases the property lists (entry bytes not matching their identifier, missing or duplicated key file, existing account) are judged; the outcome of other corruptions (heads, order) is recorded, not judged",
+        assumptions=["part 'export-faults': the export RPC is run once per read it performs on the node's datastore, with that read failing; a reported success must come with the complete archive",
+                     "only the rejection cases the property lists (entry bytes not matching their identifier, missing or duplicated key file, existing account) are judged; the outcome of other corruptions (heads, order) is recorded, not judged",
                      "a restore that waits for entries missing from the archive is ended after 4 s by cancelling the database context and counted as a rejection",
                      "logs of the restored node are read by opening the groups without activation (activation appends the new device's own entries)"],
     ),
